@@ -120,6 +120,19 @@ def load_corpus(prop):
     return out
 
 
+# share of cases rendered with the "wild" layout closure (tabs, several blanks, '&' continuations, mixed case,
+# CRLF, '=' styles, narrow lines) and probability of each decoration of rt.decorate, per property
+WILD = {"C01": 0.4, "C03": 0.2, "C07": 0.2, "C19": 0.3}
+DECOR = {"C01": 0.25, "C03": 0.1, "C07": 0.1, "C19": 0.2}
+
+
+def make_case(prop, rng, gen_opts=None):
+    opts = dict(lattice_arrays=True)
+    opts.update(gen_opts or {})
+    wild = rng.random() < WILD[prop]
+    return rt.gen_case(rng, wild=wild, opts=opts, decorate_p=DECOR[prop])
+
+
 def check_one(prop, case, prog):
     if prop == "C01":
         return rt.c01_check(case)
@@ -149,11 +162,18 @@ def run_rt(ctx, prop, n_quick, n_thorough, gen_opts=None, with_edits=True):
         cc = c.get("case", c)
         cases.append((cc, [dict(e) for e in c.get("prog", cc.get("prog", []))], True))
     n_corpus = len(cases)
+    dist["layouts"] = {}
+    dist["features"] = {}
     for i in range(n):
         rng = random.Random(f"{ctx.seed}:{prop}:{i}")
-        case = rt.gen_case(rng, opts=gen_opts)
+        case = make_case(prop, rng, gen_opts)
         prog = ED.gen_program(rng, rt.meta_int_keys(case["meta"])) if with_edits else []
         cases.append((case, prog, False))
+        lay = case.get("layout", {})
+        key = "%s/%s%s" % (lay.get("seps"), lay.get("breaks"), "/tabs" if lay.get("tabs") else "")
+        dist["layouts"][key] = dist["layouts"].get(key, 0) + 1
+        for f in case.get("features", []) + (["lattice-fill-array"] if case["meta"].get("fill_arrays") else []):
+            dist["features"][f] = dist["features"].get(f, 0) + 1
     # ---- correspondence of the tree layer on a share of the cases
     share = cases[: n_corpus + max(10, n // 4)]
     corr_tree(ctx, [(c, p) for c, p, _ in share], dist)
@@ -189,8 +209,9 @@ def run_rt(ctx, prop, n_quick, n_thorough, gen_opts=None, with_edits=True):
             small = case
             try:
                 small = rt.shrink_text(case, failing)
+                small = rt.shrink_lines(small, failing, max_rounds=2)
             except Exception:
-                small = case
+                pass
             # shrink the program
             sprog = list(prog)
             for j in range(len(sprog) - 1, -1, -1):
